@@ -182,7 +182,7 @@ def _times_to_int_array(times):
     return np.asarray(times).astype("datetime64[ns]").view(np.int64)
 
 
-@check_data_inputs_aligned("values, times")
+@check_data_inputs_aligned("values", "times")
 def ema(
     values: np.ndarray | pd.Series,
     alpha: Optional[float] = None,
